@@ -16,7 +16,8 @@ RULE = ("per scenario a fresh ASan+UBSan daemon (leak check at SIGTERM) with a b
         "eavesdropping observer; 20..60 attack steps by hostile raw clients, before and after authentication: single-site "
         "corruptions of valid bus traffic (every site class of the C01 generator), size-limit header words, declared-huge "
         "messages followed by silence, partial writes, garbage, SASL abuse incl. over-long lines, floods to a non-reading "
-        "peer, more silent connections than max_incomplete_connections, close after every prefix of a valid session, "
+        "peer, floods without reading until the bus verifiably stops reading from the flooder (max_incoming_bytes reached) followed by a "
+        "hang-up in that state (the dead connection must be dropped and the idle bus must not burn CPU), more silent connections than max_incomplete_connections, close after every prefix of a valid session, "
         "argument-level fuzzing of every driver method. After every step a bystander round-trip through the bus must "
         "return the right token; a hostile that sent a complete invalid message must see EOF; the invalid message's "
         "marker must never appear at any other client; at the end the idle daemon must not burn CPU. distinct = (attack "
@@ -103,6 +104,14 @@ class Scenario(object):
         for c in (self.b1, self.b2):
             for rec in c.take_inbox():
                 self.check_leak(rec, "bystander")
+        # The observer eavesdrops on everything, floods included, and does not read while an attack runs: its queue inside the
+        # bus can then be over max_outgoing_bytes, and the bus drops its own replies to such a connection (recorded C05 finding) -
+        # the observer's barrier would wait for an answer that was thrown away.  Empty the queue first.
+        for _ in range(400):
+            n0 = len(self.obs.inbox)
+            self.obs.pump(0.05)
+            if len(self.obs.inbox) == n0:
+                break
         self.obs.barrier()
         for rec in self.obs.take_inbox():
             self.check_leak(rec, "eavesdropper")
@@ -402,6 +411,85 @@ class Scenario(object):
         slow.close()
         h.close()
 
+    def attack_flood_hangup(self):
+        """A client writes without ever reading until the bus stops reading from it (its undelivered messages have reached
+        max_incoming_bytes: the bus switches that connection's read watch off), and hangs up in exactly that state.  The
+        precondition is verified, not assumed: the client's non-blocking send() has been refused for 0.4 s on end after
+        more than max_incoming_bytes were accepted.  Afterwards the bus must go on serving, must drop the dead connection
+        (its unique name disappears - asked through NameHasOwner, a logical condition polled under the usual watchdog) and
+        must not burn CPU while everybody is idle."""
+        rng = self.rng
+        target = rng.choice(["self", "self", "peer"])
+        how = rng.choice(["close", "shutdown-close", "shutdown-write"])
+        self.part.count("attack:flood-hangup")
+        h = self.hostile()
+        slow = self.hostile() if target == "peer" else None
+        dest = h.unique if target == "self" else slow.unique
+        # a string body: the eavesdropping observer's Python decoder gets a copy of the whole flood, and an 'ay' body would cost it
+        # one list element per byte (with 16 scenarios in parallel that alone exceeded the watchdog - a harness-made stall)
+        blob = b"z" * rng.choice([3000, 20000, 60000])
+        serial, data = h.build(4, path=b"/f", iface=b"com.example.F", member=b"Fl", dest=dest, sig=b"s", body=[blob])
+        limit = self.limits["max_incoming_bytes"]
+        self.steps.append("flood-hangup: %s-addressed flood of %d-byte messages until the bus stops reading, then %s" % (target, len(data), how))
+        h.sock.setblocking(False)
+        sent, off, stalled_since, stopped = 0, 0, None, False
+        deadline = time.time() + client.WATCHDOG
+        while time.time() < deadline:
+            try:
+                n = h.sock.send(data[off:off + 65536])
+                sent += n
+                off = (off + n) % len(data)
+                stalled_since = None
+            except BlockingIOError:
+                now = time.time()
+                if stalled_since is None:
+                    stalled_since = now
+                elif now - stalled_since > 0.4 and sent > limit:
+                    stopped = True
+                    break
+                time.sleep(0.01)
+            except OSError:
+                break
+        self.part.count("flood-hangup:bus-stopped-reading" if stopped else "flood-hangup:precondition-not-reached(not judged)")
+        if stopped:
+            self.part.count("flood-hangup:%s:%s" % (target, how))
+        name = h.unique
+        try:
+            if how != "close":
+                h.sock.shutdown(socket.SHUT_WR if how == "shutdown-write" else socket.SHUT_RDWR)
+        except OSError:
+            pass
+        if how != "shutdown-write":
+            h.close()
+        self.bystander_roundtrip("flood-hangup (%s, %s, bus stopped reading: %s)" % (target, how, stopped))
+        if slow is not None:
+            # the messages are held for the peer that does not read; once it goes they are freed and the bus reads h's end of stream
+            slow.close()
+        if stopped and how != "shutdown-write":
+            gone = False
+            deadline = time.time() + client.WATCHDOG
+            while time.time() < deadline:
+                r = self.b1.bus_call(b"NameHasOwner", b"s", [name])
+                if r.msg.type == 2 and r.msg.body == [0]:
+                    gone = True
+                    break
+                time.sleep(0.05)
+            if not gone:
+                self.violation("hung-up-connection-not-dropped:" + target,
+                               "a connection that hung up (%s) while the bus was not reading from it still owns %s %.0f s later"
+                               % (how, name.decode(), client.WATCHDOG))
+            t1 = self.daemon.cpu_ticks()
+            time.sleep(0.7)
+            t2 = self.daemon.cpu_ticks()
+            if t1 is not None and t2 is not None:
+                self.part.count("idle-windows")
+                if t2 - t1 > 25:
+                    self.violation("spin:after-flood-hangup", "the bus used %d clock ticks of CPU in a 0.7 s window in which no client "
+                                   "did anything, after a flooding client hung up (%s, %s)" % (t2 - t1, target, how))
+        if how == "shutdown-write":
+            h.close()
+        self.part.sig("flood-hangup", target, how, stopped, len(blob))
+
     def attack_incomplete_conns(self):
         rng = self.rng
         lim = self.limits["max_incomplete_connections"]
@@ -524,7 +612,7 @@ class Scenario(object):
         n = rng.randint(20, 60)
         attacks = [(self.attack_corrupt, 10), (self.attack_sizes, 2), (self.attack_preauth, 3), (self.attack_flood, 1),
                    (self.attack_incomplete_conns, 1), (self.attack_prefix_close, 3), (self.attack_driver_fuzz, 3),
-                   (self.attack_reserved, 2), (self.attack_write_and_close, 3)]
+                   (self.attack_reserved, 2), (self.attack_write_and_close, 3), (self.attack_flood_hangup, 1)]
         pool = [a for a, w in attacks for _ in range(w)]
         for _ in range(n):
             if not self.daemon.alive():
@@ -576,6 +664,8 @@ def _run_one(b, rundir, seed, shard, i, part, skip):
             part.evaluations += len(sc.steps)
             return sc
         except (client.Timeout, client.Closed) as e:
+            import traceback
+            where = "".join(traceback.format_tb(e.__traceback__)[-3:])
             alive = sc.daemon.alive() if getattr(sc, "daemon", None) else False
             try:
                 sc.finish()
@@ -584,7 +674,7 @@ def _run_one(b, rundir, seed, shard, i, part, skip):
             if attempt == 1:
                 part.violation("%s:stall:%s" % (PROP, "daemon-alive" if alive else "daemon-dead"),
                                "bystander traffic stalled twice (%s) after: %s" % (type(e).__name__, sc.steps[-1][:120] if sc.steps else "?"),
-                               sc.witness())
+                               sc.witness({"where": where}))
             else:
                 part.count("watchdog")
         finally:
@@ -636,6 +726,7 @@ def run(tier, seed, replay=None, scale=1.0):
         r.require("attack:preauth", 50)
         r.require("attack:driver-fuzz", 50)
         r.require("idle-windows", 10)
+        r.require("flood-hangup:bus-stopped-reading", 8)
     r.assumptions = ["'within bounded time' is restated as: the bystander round-trip after each attack step completes before a 20 s watchdog "
                      "(twice, the second time in a solo re-run)",
                      "invalid-message reasons that are known C01 deviations (accepted by the parser) are not expected to disconnect",
